@@ -156,6 +156,9 @@ var schemas = map[string][]field{
 	"NewNHGMember":  {{"Index", "Index", kNat}},
 	"NewNHG":        {{"NextHop", "NextHop", kind{k: "list", s: "NewNHGMember", elemNN: true}}},
 	"OrigNHG":       {{"NextHop", "NextHop", kind{k: "list", s: "OrigNHGMember", elemNN: true, keyed: true}}},
+	"FlNHG":         {{"BackupNextHopGroup", "BackupNextHopGroup", kPtr("UintBox")}},
+	"UintBox":       {},
+	"FlushErr":      {{"Errs", "Errs", kind{k: "list", s: "Status", elemNN: true}}},
 	"RibOpResult":  {{"ID", "ID", kNat}},
 	"NHEntryC":    {{"Index", "Index", kNat}},
 	"AFTOperationC": {{"Id", "Id", kNat}, {"Op", "Op", kEnum}, {"Entry", "Entry", kind{k: "oneof", s: "AFTEntry"}}},
@@ -179,7 +182,7 @@ var leanStruct = map[string]string{
 	"IPv4EntryC": "IPv4EntryC", "IPv6EntryC": "IPv6EntryC", "LabelEntryC": "LabelEntryC", "NHGEntryC": "NHGEntryC", "NHEntryC": "NHEntryC", "AFTOperationC": "AFTOperationC", "ModifyRequestC": "ModifyRequestC",
 	"AFTErrorDetails": "AFTErrorDetails", "AFTResultC": "AFTResultC", "SessionParametersResult": "SessionParametersResult", "ModifyResponseC": "ModifyResponseC", "PendingOp": "PendingOp",
 	"ElectionReqDetails": "ElectionReqDetails", "SessionParamReqDetails": "SessionParamReqDetails", "OpDetailsResults": "OpDetailsResults", "COpResult": "COpResult",
-	"AFTResultList": "(List AFTResultC)", "Bool": "Bool", "pendingQueue": "PendingQueue", "pendingEntry": "PendingEntry", "RibOpResult": "RibOpResult", "OrigTop": "OrigTop", "OrigNHGMember": "OrigNHGMember", "OrigNHG": "OrigNHG", "KeyRIB": "KeyRIB", "GPrefix": "GPrefix", "GLabel": "GLabel", "GId": "GId", "GIndex": "GIndex", "GAFTEntry": "GAFTEntry", "cache": "GetCache", "GetResponseG": "GetResponseG", "ReconEntS": "ReconEnt", "ReconEntN": "ReconEnt", "ReconAfts": "ReconAfts", "ReconNI": "ReconNI", "ReconOp": "ReconOp", "TblEntry": "TblEntry", "NewElem": "NewElem", "NewAfts": "NewAfts", "NewRIB": "NewRIB", "StringValue": "StringValue", "UintValue": "UintValue", "NewTop": "NewTop", "NewNHGMember": "NewNHGMember", "NewNHG": "NewNHG",
+	"AFTResultList": "(List AFTResultC)", "Bool": "Bool", "pendingQueue": "PendingQueue", "pendingEntry": "PendingEntry", "RibOpResult": "RibOpResult", "OrigTop": "OrigTop", "OrigNHGMember": "OrigNHGMember", "OrigNHG": "OrigNHG", "KeyRIB": "KeyRIB", "GPrefix": "GPrefix", "GLabel": "GLabel", "GId": "GId", "GIndex": "GIndex", "GAFTEntry": "GAFTEntry", "cache": "GetCache", "GetResponseG": "GetResponseG", "ReconEntS": "ReconEnt", "ReconEntN": "ReconEnt", "ReconAfts": "ReconAfts", "ReconNI": "ReconNI", "ReconOp": "ReconOp", "TblEntry": "TblEntry", "NewElem": "NewElem", "NewAfts": "NewAfts", "NewRIB": "NewRIB", "StringValue": "StringValue", "UintValue": "UintValue", "NewTop": "NewTop", "NewNHGMember": "NewNHGMember", "NewNHG": "NewNHG", "FlNHG": "FlNHG", "UintBox": "Nat", "FlushErr": "FlushErr", "Nat": "Nat", "Status": "Status",
 }
 
 func leanType(k kind) string {
@@ -556,9 +559,157 @@ func selectField(x val, goField string, en env, pos token.Pos) val {
 	return val{}
 }
 
+// ---------------------------------------------------------------- local procedures, occurrences
+
+// substOcc numbers, in source order, the occurrences of the expressions that the current spec
+// substitutes per occurrence (keys "expr#1", "expr#2", …): a table that is read again after the
+// function has changed it is a different oracle at each place it is read.
+var substOcc map[ast.Expr]int
+
+func numberOccurrences(body *ast.BlockStmt, subst map[string]string) map[ast.Expr]int {
+	bases := map[string]bool{}
+	for k := range subst {
+		if i := strings.Index(k, "#"); i >= 0 {
+			bases[k[:i]] = true
+		}
+	}
+	occ := map[ast.Expr]int{}
+	if len(bases) == 0 {
+		return occ
+	}
+	count := map[string]int{}
+	ast.Inspect(body, func(n ast.Node) bool {
+		if e, ok := n.(ast.Expr); ok {
+			if r := render(e); bases[r] {
+				if _, seen := occ[e]; !seen {
+					count[r]++
+					occ[e] = count[r]
+				}
+				return false
+			}
+		}
+		return true
+	})
+	return occ
+}
+
+// expandClosures replaces, in a function body, every statement `f(args)` that calls a local
+// procedure `f := func(params) { body }` (a function literal without results and without a return
+// statement, bound once to a new name) by the block `{ p1 := a1; …; body }`, and removes the
+// binding. Go evaluates the arguments before the body and the literal captures the enclosing
+// variables by reference, which is what the block does. Anything else done with `f` (passing it
+// on, calling it in an expression, rebinding it) is left in place and fails the translation later.
+func expandClosures(body *ast.BlockStmt) {
+	procs := map[string]*ast.FuncLit{}
+	ast.Inspect(body, func(n ast.Node) bool {
+		a, ok := n.(*ast.AssignStmt)
+		if !ok || a.Tok != token.DEFINE || len(a.Lhs) != 1 || len(a.Rhs) != 1 {
+			return true
+		}
+		fl, ok := a.Rhs[0].(*ast.FuncLit)
+		id, ok2 := a.Lhs[0].(*ast.Ident)
+		if !ok || !ok2 || fl.Type.Results != nil {
+			return true
+		}
+		hasReturn := false
+		ast.Inspect(fl.Body, func(m ast.Node) bool {
+			if _, ok := m.(*ast.ReturnStmt); ok {
+				hasReturn = true
+			}
+			return true
+		})
+		if !hasReturn {
+			procs[id.Name] = fl
+		}
+		return true
+	})
+	if len(procs) == 0 {
+		return
+	}
+	var rewrite func(list []ast.Stmt) []ast.Stmt
+	rewrite = func(list []ast.Stmt) []ast.Stmt {
+		var out []ast.Stmt
+		for _, st := range list {
+			switch v := st.(type) {
+			case *ast.AssignStmt:
+				if v.Tok == token.DEFINE && len(v.Lhs) == 1 && len(v.Rhs) == 1 {
+					if id, ok := v.Lhs[0].(*ast.Ident); ok {
+						if fl, ok := v.Rhs[0].(*ast.FuncLit); ok && procs[id.Name] == fl {
+							continue
+						}
+					}
+				}
+			case *ast.ExprStmt:
+				if c, ok := v.X.(*ast.CallExpr); ok {
+					if id, ok := c.Fun.(*ast.Ident); ok {
+						if fl, ok := procs[id.Name]; ok {
+							var names []*ast.Ident
+							for _, p := range fl.Type.Params.List {
+								names = append(names, p.Names...)
+							}
+							if len(names) == len(c.Args) {
+								blk := &ast.BlockStmt{Lbrace: c.Pos(), Rbrace: c.End()}
+								for i, a := range c.Args {
+									blk.List = append(blk.List, &ast.AssignStmt{Lhs: []ast.Expr{ast.NewIdent(names[i].Name)}, TokPos: c.Pos(), Tok: token.DEFINE, Rhs: []ast.Expr{a}})
+								}
+								blk.List = append(blk.List, fl.Body.List...)
+								out = append(out, blk)
+								continue
+							}
+						}
+					}
+				}
+			case *ast.BlockStmt:
+				v.List = rewrite(v.List)
+			case *ast.IfStmt:
+				v.Body.List = rewrite(v.Body.List)
+				if eb, ok := v.Else.(*ast.BlockStmt); ok {
+					eb.List = rewrite(eb.List)
+				} else if ei, ok := v.Else.(*ast.IfStmt); ok {
+					rewrite([]ast.Stmt{ei})
+				}
+			case *ast.ForStmt:
+				v.Body.List = rewrite(v.Body.List)
+			case *ast.RangeStmt:
+				v.Body.List = rewrite(v.Body.List)
+			case *ast.SwitchStmt:
+				for _, c := range v.Body.List {
+					cc := c.(*ast.CaseClause)
+					cc.Body = rewrite(cc.Body)
+				}
+			case *ast.TypeSwitchStmt:
+				for _, c := range v.Body.List {
+					cc := c.(*ast.CaseClause)
+					cc.Body = rewrite(cc.Body)
+				}
+			}
+			out = append(out, st)
+		}
+		return out
+	}
+	body.List = rewrite(body.List)
+}
+
 func trExpr(e ast.Expr, en env) val {
 	if cur != nil {
-		if s, ok := cur.subst[render(e)]; ok {
+		key := render(e)
+		if n := substOcc[e]; n > 0 {
+			key += "#" + strconv.Itoa(n)
+		}
+		if s, ok := cur.subst[key]; ok {
+			if i := strings.Index(s, "@"); i >= 0 {
+				// the substituted value depends on local variables: the oracle parameter is a function
+				f := en.vars[s[:i]]
+				app := f.lean
+				for _, a := range strings.Split(s[i+1:], ",") {
+					x, ok := en.vars[a]
+					if !ok {
+						fail(e.Pos(), "substitution %s: unknown variable %s", s, a)
+					}
+					app += " " + atom(x.lean)
+				}
+				return val{lean: "(" + app + ")", kd: f.kd.t[0], path: fresh("path")}
+			}
 			return en.vars[s]
 		}
 	}
@@ -738,6 +889,13 @@ func trExpr(e ast.Expr, en env) val {
 			}
 			return val{lean: "[" + strings.Join(els, ", ") + "]", kd: sk}
 		}
+		if at, ok := v.Type.(*ast.ArrayType); ok && len(v.Elts) == 0 && render(at.Elt) == "uint64" {
+			return val{lean: "[]", kd: kind{k: "list", s: "Nat", elemNN: true}}
+		}
+		if at, ok := v.Type.(*ast.ArrayType); ok && len(v.Elts) == 0 && render(at.Elt) == "error" {
+			// a slice of errors: non-nil errors are appended
+			return val{lean: "[]", kd: kind{k: "list", s: "Status", elemNN: true}}
+		}
 		if at, ok := v.Type.(*ast.ArrayType); ok && render(at.Elt) == "string" {
 			var els []string
 			for _, el := range v.Elts {
@@ -776,6 +934,14 @@ func trExpr(e ast.Expr, en env) val {
 	case *ast.StarExpr:
 		if x, ok := en.vars[render(v)]; ok && cur != nil && cur.isState(render(v)) {
 			return x
+		}
+		if x := trExpr(v.X, en); x.kd.k == "ptr" && x.kd.s == "UintBox" {
+			// *p of a *uint64 field: only where p is known not to be nil
+			b, ok := en.bound[x.path]
+			if !ok {
+				fail(v.Pos(), "possible nil dereference of %s", x.path)
+			}
+			return val{lean: b, kd: kNat}
 		}
 		fail(v.Pos(), "dereference %s", render(v))
 	case *ast.IndexExpr:
@@ -1804,6 +1970,16 @@ func trCall(c *ast.CallExpr, en env) []val {
 		if a.kd.k == "list" && a.kd.s == "String" && b.kd.k == "str" {
 			return []val{{lean: "(" + a.lean + " ++ [" + b.lean + "])", kd: a.kd}}
 		}
+		if a.kd.k == "list" && a.kd.s == "Nat" && (b.kd.k == "nat" || b.kd.k == "u64") {
+			return []val{{lean: "(" + a.lean + " ++ [" + b.lean + "])", kd: a.kd}}
+		}
+		if a.kd.k == "list" && a.kd.s == "Status" && b.kd.k == "status" {
+			bn, ok := en.bound[b.path]
+			if !ok {
+				fail(c.Pos(), "append of an error that may be nil")
+			}
+			return []val{{lean: "(" + a.lean + " ++ [" + bn + "])", kd: a.kd}}
+		}
 		if a.kd.k != "list" || !((a.kd.s == "AFTResult" && b.kd.k == "aftresult") || (b.kd.k == "ptr" && b.kd.s == a.kd.s)) {
 			fail(c.Pos(), "append of %s to %s", b.kd, a.kd)
 		}
@@ -1979,6 +2155,11 @@ func trCall(c *ast.CallExpr, en env) []val {
 						fail(c.Pos(), "oracle result %s", r)
 					}
 					return trExpr(c.Args[ai], en)
+				}
+				if r == "true" {
+					// a declared precondition of the translated function: the call succeeds
+					out = append(out, val{lean: "true", kd: kBool, path: "const:true"})
+					continue
 				}
 				if strings.HasPrefix(r, "$") {
 					// the result is one of the call's own arguments (or its receiver)
@@ -2387,6 +2568,9 @@ func trCond(e ast.Expr, en env, kt, kf cont) string {
 	}
 	if id, ok := e.(*ast.Ident); ok {
 		if x, ok := en.vars[id.Name]; ok {
+			if x.path == "const:true" {
+				return kt(en)
+			}
 			if p, ok := okPairs[x.path]; ok {
 				// the ok of a (pointer, ok) pair: true exactly when the pointer is non-nil
 				if en.isNil[p.path] {
@@ -2540,6 +2724,10 @@ func bindResult(en *env, name string, v val, define bool, pos token.Pos) {
 	case "ptr", "status", "mresp", "nilptr", "oneof":
 		// alias: nil knowledge travels with the path
 	default:
+		if v.path == "const:true" {
+			// the constant of a declared precondition: tests of it are decided here
+			break
+		}
 		n := fresh(name)
 		if v.lean == "[]" {
 			// an empty literal has no type of its own (it may never be used)
@@ -3840,6 +4028,10 @@ func translate(sp *fnSpec, files map[string]*ast.File, srcs map[string][]byte) (
 	for _, p := range sp.params {
 		want = append(want, p.goName+" "+p.goType)
 	}
+	if sp.inlineClosures {
+		expandClosures(fd.Body)
+	}
+	substOcc = numberOccurrences(fd.Body, sp.subst)
 	stmts := fd.Body.List
 	if sp.loop {
 		// one iteration of the receive loop of the first goroutine the function starts, from the
